@@ -33,7 +33,10 @@ def run(ctx, seed_off, tier, limit=3):
         n += 9
         if N >= 3:
             keys.add((N, SR, kind, fc, order))
-        f = numeric.c13_oracle(N, SR, kind, fc, order, rng)
+        try:
+            f = numeric.c13_oracle(N, SR, kind, fc, order, rng)
+        except Exception as e:  # noqa: BLE001
+            f = [f"ripasso raised {type(e).__name__} on a valid call (N={N}, SR={SR}): {str(e)[:120]}"]
         if f:
             found.append((f[0], {"numeric_case": {"N": N, "SR": SR, "kind": kind, "f_cut": fc, "order": order},
                                  "oracle_failures": f}))
